@@ -34,6 +34,17 @@ B. luna.gateware.usb.usb3.link.timers.LinkMaintenanceTimers(ss_clock_frequency =
    seen at N-1..N+2.  `transition_to_recovery` needs q >= M ("never earlier") and must be seen at q = M or M+1 ("within one
    cycle") if the silence lasts that long.  Later strobes in the same silence (counter roll-over) are counted, not judged.
 
+Deviations from DESIGN.md section 7: (1) "sixteen symbols sent" is counted including the cycle in which `complete` is
+sampled (the LTSSM leaves Polling.Idle at the end of that cycle), so completion in the 4th enabled cycle is accepted and a
+design with RX_CYCLES_REQUIRED = 3 does not violate the statement (= 2 does); (2) the eight idle symbols are tracked symbol
+by symbol instead of "two all-idle words", and a run may start before enable rose, because the statement does not say
+otherwise (the bounded-progress rule uses the stricter two-adjacent-words condition, so both readings are satisfied);
+(3) the recovery strobe is accepted at M or M+1 only ("within one cycle ... never earlier"), not at M-1.
+Mutation results (quick tier): caught RX_CYCLES 4->2, dropped ctrl terms, single-word detection, ignored top byte,
+seen_idle / enable_counter not cleared on disable, counter overrun (never completes), recovery at half / one early / two
+late / wrong reset inputs / not reset or counting while disabled, keepalive at half / 20 us / reset by rx / not reset on
+disable; not flagged because the statement still holds: RX_CYCLES 4->3, recovery one cycle late.
+
 Not judged: `idle_detected`; how long `complete` stays high; strobes while `enable` is low (the statement speaks about
 U0); the keepalive's upper bound is taken as N+2 cycles, not the statement's outer limit of 10 ms (see ASSUMPTIONS);
 absolute time (cycles at the block's own `ss_clock_frequency` parameter).
